@@ -400,6 +400,17 @@ def run(ctx, rep):
                     and c.args[0].id == v_seq and c.args[1].id == v_args and rdq.at(n, v_seq) == {ln}
     rep.ob("R08.3", "_dispatch: request handed to _dispatch_request with its own seq", okreq,
            "(seq, args) forwarded unchanged" if okreq else "a request is not forwarded with its own (seq, args)", fd.loc)
+    # ... on every path: no test in _dispatch decides whether a received request is executed (sequence numbers of different
+    # threads of the peer may arrive out of order; a "stale" request is still a request that must be answered)
+    req_nodes = {n.id for n in dm.nodes("MSG_REQUEST") if n.ast is not None and n.kind in ("stmt", "test") and
+                 A.find_calls(n.ast, "self._dispatch_request")}
+    ok_q = dm.edge_ok("MSG_REQUEST")
+    skip_q = Q.find_path_ef([gd.entry], lambda x: x is gd.exit, lambda a, b, l: ok_q(a, b, l) and b.id not in req_nodes) \
+        if req_nodes else [gd.entry]
+    rep.ob("R08.3", "_dispatch: every received request reaches _dispatch_request", skip_q is None,
+           "no path for a MSG_REQUEST leaves _dispatch without dispatching it" if skip_q is None else
+           "a received request can be dropped without being executed or answered (the requester waits for its timeout)",
+           fd.loc, witness=ctx.path(skip_q) if skip_q else None)
     no_resp_on_req = not any(A.find_calls(n.ast, "self._seq_request_callback") for n in dm.nodes("MSG_REQUEST")
                              if n.ast is not None and n.kind == "stmt")
     okother = not dm.returns("<other>") and bool(dm.raises("<other>")) and gd.exit not in dm.nodes("<other>")
@@ -570,4 +581,4 @@ def run(ctx, rep):
     K.share(ctx, rep, "c15", lambda o: o.rule == "R15.1" or (o.rule == "R15.4" and "AsyncResult.wait" in o.key), "R08.11", floor=3)
     # a message that was encoded by a conforming peer decodes: writer/reader agreement of the value codec (a decode failure in
     # _dispatch happens before any request/reply handling - the message is neither executed nor answered)
-    K.share(ctx, rep, "c04", lambda o: o.rule in ("R04.3", "R04.6"), "R08.7", floor=20)
+    K.share(ctx, rep, "c04", lambda o: o.rule in ("R04.3", "R04.6") or (o.rule == "R04.2" and "output buffer" in o.key), "R08.7", floor=20)
